@@ -110,6 +110,9 @@ def corr(ctx, pexpect, n):
     rng = ctx.rng
     cases = []
     seen = {}
+    shared = {True: SpawnBase(encoding=None), False: SpawnBase(encoding='utf-8')}    # long-lived objects: a per-object cache would show
+    history = {True: [], False: []}
+    nhit = 0
     for i in range(n):
         o = gen_obj(rng)
         if rng.random() < 0.3 and o[0] != 'list':
@@ -117,7 +120,7 @@ def corr(ctx, pexpect, n):
         bm = rng.random() < 0.5
         ic = rng.random() < 0.3
         ex = rng.random() < 0.35
-        sp = SpawnBase(encoding=None if bm else 'utf-8')
+        sp = shared[bm] if rng.random() < 0.8 else SpawnBase(encoding=None if bm else 'utf-8')
         sp.ignorecase = ic
         obj = py_obj(pexpect, o)
         try:
@@ -152,6 +155,28 @@ def corr(ctx, pexpect, n):
         except Exception as e:
             res = [9, type(e).__name__]
         seen[str(res[0])] = seen.get(str(res[0]), 0) + 1
+        # direct oracle on the descriptor: the property itself, entry by entry
+        if res[0] == 0 and not ex and nhit < 3:
+            entries = o[1] if o[0] == 'list' else ([] if o[0] == 'None' else [o])
+            for ent, d in zip(entries, res[1]):
+                bad = None
+                if ent[0] in ('str', 'bytes') and d[0] == 0:
+                    want = int(re.S) | (int(re.I) if ic else 0)
+                    if d[3] & (int(re.S) | int(re.I)) != want:
+                        bad = 'string pattern %r compiled with flags %d: DOTALL must be set and IGNORECASE must be %s' % (ent[1], d[3], 'set' if ic else 'clear')
+                elif ent[0] == 're' and d[0] == 0:
+                    keep = int(re.I | re.M | re.S | re.X | re.A)
+                    if d[3] & keep != ent[3] & keep:
+                        bad = 'compiled pattern %r with flags %d came back with flags %d' % (ent[2], ent[3] & keep, d[3] & keep)
+                    if (d[1] == 1) != bm:
+                        bad = 'compiled pattern %r not coerced to the object\'s string type' % (ent[2],)
+                if bad:
+                    nhit += 1
+                    ctx.hit('C20/descriptor', '%s (bytes_mode=%s, ignorecase=%s; earlier patterns compiled on the same object: %r)' % (bad, bm, ic, history[bm][-3:]),
+                            {'object': repr(o), 'bytes_mode': bm, 'ignorecase': ic, 'earlier_on_same_object': history[bm][-5:]})
+                    break
+        if sp is shared[bm]:
+            history[bm].append(repr(o))
         cases.append(('(%s, %s, %s, %s)' % (cbool(bm), cbool(ic), cbool(ex), coq_pobj(o)), res,
                       {'object': repr(o), 'bytes_mode': bm, 'ignorecase': ic, 'expect_exact': ex}))
     ctx.oracle_stats['descriptor_outcomes'] = seen
